@@ -90,7 +90,13 @@ static unsigned int svf_parse_flags(unsigned int in_flags, const char* mod) {
             }
             if (adding) in_flags |= f; else in_flags &= ~f;
             j = 0;
-        } else buf[j++] = mod[i];
+        } else if (j + 1 < sizeof(buf)) {
+            buf[j++] = mod[i];
+        } else {
+            buf[j] = 0;
+            fprintf(stderr, "svf_parse_flags(): verification flag name too long: %s...\n", buf);
+            exit(1);
+        }
     }
     return in_flags;
 }
